@@ -29,7 +29,8 @@ N = {'quick': 2000, 'thorough': 8000}
 GIB = 1024 ** 3
 TOTAL = 64 * GIB
 KEEPS = [None, '1 GB', '10%', '50%', '90%', 2 * GIB]
-PATHS = ['idx', 'neg', 'np64', 'np32', 'key', 'slice', 'iter', 'partial', 'prefetch2', 'prefetch1', 'items']
+PATHS = ['idx', 'neg', 'np64', 'np32', 'key', 'slice', 'iter', 'partial', 'prefetch2', 'prefetch1', 'items',
+         'iter_nested', 'zipself']
 
 
 def plan(tier):
@@ -67,6 +68,8 @@ def check(case):
     def counting(x):
         c = next(counter)
         calls.setdefault(x, []).append(c)
+        if case.get('unpicklable'):
+            return [x, c, (lambda: None)]  # cannot be pickled: the cache may refuse it (never half-handle it)
         return [x, c]  # a mutable example: the consumer may change it in place (step 'mut')
 
     keys = ['k%d' % i for i in range(n)]
@@ -105,6 +108,11 @@ def check(case):
             try:
                 ds = base.cache(lazy=False)
             except Exception as e:
+                if case.get('unpicklable'):
+                    if sum(len(v) for v in calls.values()) > n:
+                        raise Violation('eager-call-count', f'{desc}\nthe refused eager cache ran the upstream pipeline '
+                                                            f'more than once per example: {calls}')
+                    return False  # refused what it cannot serialise: fine
                 raise Violation('eager-cache-raised', f'{desc}\ncache(lazy=False) raised {type(e).__name__}: '
                                                       f'{str(e)[:300]}')
             want = [[x, i + 1] for i, x in enumerate(xs)]
@@ -127,6 +135,8 @@ def check(case):
         def observe(p, v, path):
             nonlocal ever_short
             last.append(v)
+            if case.get('unpicklable') and isinstance(v, list) and len(v) == 3:
+                v = v[:2]
             if not (isinstance(v, list) and len(v) == 2 and v[0] == xs[p] and v[1] in calls.get(xs[p], [])):
                 raise Violation(f'not-a-pipeline-value|{path}', f'{desc}\nposition {p} via {path} returned {v!r}; '
                                                                 f'upstream produced {calls.get(xs[p])} for {xs[p]}')
@@ -158,7 +168,7 @@ def check(case):
         short_computed = set()
         latched = set()       # targets that had a miss while memory was short: they never cache again
         maybe_cached = set()  # values computed at least once under conditions that allow caching
-        DIRECT = ('idx', 'neg', 'np64', 'np32', 'key', 'iter', 'items', 'partial')
+        DIRECT = ('idx', 'neg', 'np64', 'np32', 'key', 'iter', 'items', 'partial', 'iter_nested', 'zipself')
         for step in case['steps']:
             kind = step[0]
             if kind == 'mut':
@@ -225,6 +235,16 @@ def check(case):
                     for i in range(p + 1):
                         observe(i, next(it), path)
                     it.close()
+                elif path == 'iter_nested':
+                    # an index access from inside the loop body of an iteration over the same object
+                    for i, v in enumerate(d):
+                        observe(i, v, path)
+                        j = (pos + i) % n
+                        observe(j, d[j], path)
+                elif path == 'zipself':
+                    for i, (v1, v2) in enumerate(zip(d, d)):
+                        observe(i, v1, path)
+                        observe(i, v2, path)
                 elif path in ('prefetch2', 'prefetch1'):
                     pf = d.prefetch(2, 2) if path == 'prefetch2' else d.prefetch(1, 1)
                     for i, v in enumerate(pf):
@@ -282,7 +302,9 @@ def st_case(draw):
         case['keep'] = None
         case['available'] = 60
         case['upstream'] = draw(st.sampled_from([None, 'tail', 'rev', 'sortrev', 'filt', 'dupcat']))
-        if case['upstream'] not in ('filt', 'dupcat') and draw(st.booleans()):
+        if draw(st.integers(0, 3)) == 0:
+            case['unpicklable'] = True
+        if case['upstream'] not in ('filt', 'dupcat') and not case.get('unpicklable') and draw(st.booleans()):
             case['pre'] = draw(st.lists(st.integers(0, 5), min_size=0, max_size=4))
     else:
         case['upstream'] = draw(st.sampled_from([None, None, 'tail', 'rev', 'sortrev']))
@@ -306,7 +328,8 @@ def run_shard(tier, idx, nshards, rec, known):
     out = Outcome()
     # bounded-exhaustive: all histories of length <= L over a small alphabet, n = 2
     alphabet = [['mut'], ['acc', 'idx', 1, 0], ['acc', 'neg', 1, 0], ['acc', 'np32', 0, 1], ['acc', 'iter', 0, 1],
-                ['acc', 'slice', 1, 0], ['acc', 'key', 0, 0], ['copy', 0], ['mem', 0.1], ['acc', 'prefetch2', 0, 1]]
+                ['acc', 'slice', 1, 0], ['acc', 'key', 0, 0], ['copy', 0], ['mem', 0.1], ['acc', 'prefetch2', 0, 1],
+                ['acc', 'iter_nested', 1, 0]]
     L = 3 if tier == 'quick' else 4
     k = 0
     for ln in range(1, L + 1):
